@@ -88,6 +88,15 @@ CHECKS = {
         "Bounded time is decided with a generous CPU bound; the catalogue is finite (shapes listed in checks/c20.py).",
         "DESIGN.md §3 C20",
     ),
+    "C18": (
+        "exploration",
+        "Hypothesis-generated directory trees and discovery options, differential against an independent reference model of the documented rule (own glob expander)",
+        "Real directory trees with documented, look-alike and configured suffixes are indexed under drawn source_dirs / excl_paths (literal, relative, "
+        "absolute, *, ?, **) / incl_suffixes / excl_suffixes given by file or CLI; the set of files in the server's index and the set of files whose "
+        "uniquely named module is returned by workspace/symbol must equal harness/fsmodel.py's expected set.",
+        "Trusts harness/fsmodel.py; no symlinks/dot-directories; a configured source_dirs never expands to the root alone; mixed-case suffixes not generated.",
+        "DESIGN.md §3 C18",
+    ),
 }
 
 NOT_YET = "check not built yet in this session (work in progress; see DESIGN.md §3 for the planned generator and oracle)"
